@@ -626,7 +626,7 @@ pub fn edit_models(rng: &mut Rng, m: &mut Vec<TableDef>, profile: Profile) -> &'
             if tpk.len() != 1 {
                 return "noop";
             }
-            let rty = find_col(&target, &tpk[0]).map(|c| c.r#type.clone()).unwrap();
+            let Some(rty) = find_col(&target, &tpk[0]).map(|c| c.r#type.clone()) else { return "noop" };
             let cname = format!("{}_{}", target.name, tpk[0]);
             let t = &mut m[ti];
             if !t.columns.iter().any(|c| c.name == cname) {
